@@ -1,5 +1,6 @@
 (* C12 — property theorems (statements only; proofs live in Proofs.v).
-   All statements are about the formula language of Model.v (unbounded: every formula, substitution, scope).
+   The specification is the denotation `eval` of Spec.v (+ ext / proj / bop_val / cmp_eval); the operations of Model.v /
+   ModelT.v (subst, build, cmp_model, evalv, evalT) are related to it (unbounded: every formula, substitution, scope).
    "qupulse's sympy-based evaluation returns `eval`" is NOT a theorem: sympy is the implementation, it is compared with
    `eval` by the correspondence check (Corr.v + harness). *)
 From Coq Require Import ZArith QArith List Bool NArith.
@@ -47,6 +48,14 @@ Theorem C12_guard_nonvacuous : capture_free swap_s swap_e = true /\ subst swap_s
 Proof. exact capture_guard_nonvacuous. Qed.
 Print Assumptions C12_guard_nonvacuous.
 
+(* ... both sides have a value there and the substitution changes the value (38 against 32 for the formula as written) *)
+Theorem C12_subst_nonvacuous_value :
+  capture_free swap_s swap_e = true /\
+  eval swap_r (subst swap_s swap_e) = Ok (38 # 1) /\ eval (ext swap_r swap_s) swap_e = Ok (38 # 1) /\
+  eval swap_r swap_e = Ok (32 # 1).
+Proof. exact subst_nonvacuous_value. Qed.
+Print Assumptions C12_subst_nonvacuous_value.
+
 (* substituting NUMBERS never captures: partial-then-full evaluation = evaluation at once (no guard) *)
 Theorem C12_partial : forall e l r, rsim (eval r (subst (consts l) e)) (eval (over l r) e).
 Proof. exact partial_sim. Qed.
@@ -78,6 +87,12 @@ Print Assumptions C12_cmp_sound.
 Theorem C12_cmp_undecided : forall f c a b, closed a && closed b = false -> cmp_model f c a b = None.
 Proof. exact cmp_undecided_open. Qed.
 Print Assumptions C12_cmp_undecided.
+
+Theorem C12_cmp_nonvacuous :
+  cmp_model (fun _ _ => None) OLt cmp_a cmp_b = Some true /\ cmp_model (fun _ _ => None) OGe cmp_a cmp_b = Some false /\
+  closed (Var 0%N) && closed cmp_b = false.
+Proof. exact cmp_nonvacuous. Qed.
+Print Assumptions C12_cmp_nonvacuous.
 
 (* exact-rational closure: `eval` is a function into Q, so every value it returns is the exact rational number the
    formula denotes; for the rational fragment (no sin/cos/exp) that value does not depend on any interpretation of the
@@ -151,7 +166,7 @@ Proof. exact exact_guard_rejects_witness. Qed.
 Print Assumptions C12_exact_guard_excludes_witness.
 
 Theorem C12_exact_guard_nonvacuous :
-  exact_guard exact_s exact_s exact_e = true /\ env_in exact_r exact_s exact_s /\
+  tex exact_r = true /\ exact_guard exact_s exact_s exact_e = true /\ env_in exact_r exact_s exact_s /\
   exists v, evalT exact_r exact_e = Ok (v, TTime) /\ v == 13 # 6.
 Proof. exact exact_guard_nonvacuous. Qed.
 Print Assumptions C12_exact_guard_nonvacuous.
@@ -183,3 +198,10 @@ Theorem C12_literal_as_input : forall e r x q t,
   rsim (eval (erase r) (subst (consts [(x, q)]) e)) (rfst (evalT (set_tsc r x (q, t)) e)).
 Proof. exact literal_as_input. Qed.
 Print Assumptions C12_literal_as_input.
+
+(* check_spec (SpecCheck.v imports Spec.v only) judges a typed unit case in the erasure of the scope the typed model runs
+   in: the specification side and the model side of a CTyped case speak about the same formula in the same scope *)
+Theorem C12_spec_scope_is_erasure : forall ex s v e,
+  eval (mk_env (untyped s) (untyped v) []) e = eval (erase (mk_tenv ex s v [])) e.
+Proof. exact spec_scope_is_erasure. Qed.
+Print Assumptions C12_spec_scope_is_erasure.
